@@ -904,6 +904,9 @@ def run(ctx: Context):
             if is_return(n) and isinstance(n.ast.value, ast.Name):
                 rvname = n.ast.value.id
         rv = [n for n in cfg.nodes if rvname in node_stores(n)]
+        if not rv:                   # ... or returns directly (`return [(offset, length)]`)
+            rv = [n for n in cfg.nodes if is_return(n) and n.ast.value is not None
+                  and not isinstance(n.ast.value, ast.Name)]
         salted = [n for n in cfg.nodes if n.kind == "stmt" and isinstance(n.ast, ast.AugAssign)
                   and isinstance(n.ast.op, ast.Add) and tn.norm(n, n.ast.value) == "SALT_SIZE"]
         if not rv:
@@ -921,7 +924,7 @@ def run(ctx: Context):
                                          kill=lambda m: lenvar in node_stores(m) and m not in salted):
             r.violation(then, then.loc(n.ast), "an MDMF block can be read without room for its salt (path: %s)" % w.brief(), w)
         for n in rv:
-            v = assign_value(n, rvname)
+            v = n.ast.value if is_return(n) else assign_value(n, rvname)
             pr = _pair(v.elts[0]) if isinstance(v, ast.List) and len(v.elts) == 1 else None
             r.require(pr is not None and attr_path(pr[0]) == "share_offset" and (lenvar is None or attr_path(pr[1]) == lenvar), then,
                       then.loc(n.ast), "read vector is %s" % src(then, v))
